@@ -1,50 +1,55 @@
-/* SET: independent finite/cofinite set model (window of VS_W bits + "tail" flag meaning
- * every index >= VS_W is a member). Written from include/hwloc/bitmap.h documentation only. */
+/* SET: independent finite/cofinite set model: a window of VS_W bits (packed in 64-bit words)
+ * plus a "tail" flag meaning every index >= VS_W is a member.
+ * Written from the documentation in include/hwloc/bitmap.h only. */
 #ifndef VSET_H
 #define VSET_H
 #include <string.h>
 #include <stdint.h>
+#include <stdio.h>
 
 #define VS_W 2048
+#define VS_NW (VS_W / 64)
 
-typedef struct vset { unsigned char bit[VS_W]; int tail; } vset;
+typedef struct vset { uint64_t w[VS_NW]; int tail; } vset;
 
-static inline void vs_zero(vset *s) { memset(s->bit, 0, VS_W); s->tail = 0; }
-static inline void vs_fill(vset *s) { memset(s->bit, 1, VS_W); s->tail = 1; }
+#define VS_BIT(s, i) (((s)->w[(i) >> 6] >> ((i) & 63)) & 1u)
+
+static inline void vs_zero(vset *s) { memset(s->w, 0, sizeof s->w); s->tail = 0; }
+static inline void vs_fill(vset *s) { memset(s->w, 0xff, sizeof s->w); s->tail = 1; }
 static inline void vs_copy(vset *d, const vset *s) { *d = *s; }
-static inline void vs_set(vset *s, unsigned i) { if (i < VS_W) s->bit[i] = 1; }
-static inline void vs_clr(vset *s, unsigned i) { if (i < VS_W) s->bit[i] = 0; }
-static inline int vs_isset(const vset *s, unsigned i) { return i < VS_W ? s->bit[i] : s->tail; }
+static inline void vs_set(vset *s, unsigned i) { if (i < VS_W) s->w[i >> 6] |= (uint64_t)1 << (i & 63); }
+static inline void vs_clr(vset *s, unsigned i) { if (i < VS_W) s->w[i >> 6] &= ~((uint64_t)1 << (i & 63)); }
+static inline int vs_isset(const vset *s, unsigned i) { return i < VS_W ? (int)VS_BIT(s, i) : s->tail; }
 /* end == -1 means infinite */
 static inline void vs_set_range(vset *s, unsigned b, long e)
 {
-  if (e == -1) { for (unsigned i = b; i < VS_W; i++) s->bit[i] = 1; s->tail = 1; return; }
-  for (long i = b; i <= e && i < VS_W; i++) s->bit[i] = 1;
+  if (e == -1) { for (unsigned i = b; i < VS_W; i++) vs_set(s, i); s->tail = 1; return; }
+  for (long i = b; i <= e && i < VS_W; i++) vs_set(s, (unsigned)i);
 }
 static inline void vs_clr_range(vset *s, unsigned b, long e)
 {
-  if (e == -1) { for (unsigned i = b; i < VS_W; i++) s->bit[i] = 0; s->tail = 0; return; }
-  for (long i = b; i <= e && i < VS_W; i++) s->bit[i] = 0;
+  if (e == -1) { for (unsigned i = b; i < VS_W; i++) vs_clr(s, i); s->tail = 0; return; }
+  for (long i = b; i <= e && i < VS_W; i++) vs_clr(s, (unsigned)i);
 }
-static inline void vs_or(vset *r, const vset *a, const vset *b) { vset t; for (int i = 0; i < VS_W; i++) t.bit[i] = a->bit[i] | b->bit[i]; t.tail = a->tail | b->tail; *r = t; }
-static inline void vs_and(vset *r, const vset *a, const vset *b) { vset t; for (int i = 0; i < VS_W; i++) t.bit[i] = a->bit[i] & b->bit[i]; t.tail = a->tail & b->tail; *r = t; }
-static inline void vs_andnot(vset *r, const vset *a, const vset *b) { vset t; for (int i = 0; i < VS_W; i++) t.bit[i] = a->bit[i] & !b->bit[i]; t.tail = a->tail & !b->tail; *r = t; }
-static inline void vs_xor(vset *r, const vset *a, const vset *b) { vset t; for (int i = 0; i < VS_W; i++) t.bit[i] = a->bit[i] ^ b->bit[i]; t.tail = a->tail ^ b->tail; *r = t; }
-static inline void vs_not(vset *r, const vset *a) { vset t; for (int i = 0; i < VS_W; i++) t.bit[i] = !a->bit[i]; t.tail = !a->tail; *r = t; }
+static inline void vs_or(vset *r, const vset *a, const vset *b) { for (int i = 0; i < VS_NW; i++) r->w[i] = a->w[i] | b->w[i]; r->tail = a->tail | b->tail; }
+static inline void vs_and(vset *r, const vset *a, const vset *b) { for (int i = 0; i < VS_NW; i++) r->w[i] = a->w[i] & b->w[i]; r->tail = a->tail & b->tail; }
+static inline void vs_andnot(vset *r, const vset *a, const vset *b) { for (int i = 0; i < VS_NW; i++) r->w[i] = a->w[i] & ~b->w[i]; r->tail = a->tail & !b->tail; }
+static inline void vs_xor(vset *r, const vset *a, const vset *b) { for (int i = 0; i < VS_NW; i++) r->w[i] = a->w[i] ^ b->w[i]; r->tail = a->tail ^ b->tail; }
+static inline void vs_not(vset *r, const vset *a) { for (int i = 0; i < VS_NW; i++) r->w[i] = ~a->w[i]; r->tail = !a->tail; }
 
-static inline int vs_iszero(const vset *s) { if (s->tail) return 0; for (int i = 0; i < VS_W; i++) if (s->bit[i]) return 0; return 1; }
-static inline int vs_isfull(const vset *s) { if (!s->tail) return 0; for (int i = 0; i < VS_W; i++) if (!s->bit[i]) return 0; return 1; }
+static inline int vs_iszero(const vset *s) { if (s->tail) return 0; for (int i = 0; i < VS_NW; i++) if (s->w[i]) return 0; return 1; }
+static inline int vs_isfull(const vset *s) { if (!s->tail) return 0; for (int i = 0; i < VS_NW; i++) if (~s->w[i]) return 0; return 1; }
 /* first set index or -1 when empty; with tail and empty window: VS_W */
-static inline long vs_first(const vset *s) { for (int i = 0; i < VS_W; i++) if (s->bit[i]) return i; return s->tail ? VS_W : -1; }
-static inline long vs_next(const vset *s, long prev) { for (long i = prev + 1; i < VS_W; i++) if (s->bit[i]) return i; if (s->tail) return prev + 1 >= VS_W ? prev + 1 : VS_W; return -1; }
-static inline long vs_last(const vset *s) { if (s->tail) return -1; for (int i = VS_W - 1; i >= 0; i--) if (s->bit[i]) return i; return -1; }
-static inline long vs_first_unset(const vset *s) { for (int i = 0; i < VS_W; i++) if (!s->bit[i]) return i; return s->tail ? -1 : VS_W; }
-static inline long vs_next_unset(const vset *s, long prev) { for (long i = prev + 1; i < VS_W; i++) if (!s->bit[i]) return i; if (!s->tail) return prev + 1 >= VS_W ? prev + 1 : VS_W; return -1; }
-static inline long vs_last_unset(const vset *s) { if (!s->tail) return -1; for (int i = VS_W - 1; i >= 0; i--) if (!s->bit[i]) return i; return -1; }
-static inline long vs_weight(const vset *s) { if (s->tail) return -1; long w = 0; for (int i = 0; i < VS_W; i++) w += s->bit[i]; return w; }
-static inline int vs_isequal(const vset *a, const vset *b) { return a->tail == b->tail && !memcmp(a->bit, b->bit, VS_W); }
-static inline int vs_isincluded(const vset *a, const vset *b) { if (a->tail && !b->tail) return 0; for (int i = 0; i < VS_W; i++) if (a->bit[i] && !b->bit[i]) return 0; return 1; }
-static inline int vs_intersects(const vset *a, const vset *b) { if (a->tail && b->tail) return 1; for (int i = 0; i < VS_W; i++) if (a->bit[i] && b->bit[i]) return 1; return 0; }
+static inline long vs_first(const vset *s) { for (int i = 0; i < VS_W; i++) if (VS_BIT(s, i)) return i; return s->tail ? VS_W : -1; }
+static inline long vs_next(const vset *s, long prev) { for (long i = prev + 1; i < VS_W; i++) if (VS_BIT(s, i)) return i; if (s->tail) return prev + 1 >= VS_W ? prev + 1 : VS_W; return -1; }
+static inline long vs_last(const vset *s) { if (s->tail) return -1; for (int i = VS_W - 1; i >= 0; i--) if (VS_BIT(s, i)) return i; return -1; }
+static inline long vs_first_unset(const vset *s) { for (int i = 0; i < VS_W; i++) if (!VS_BIT(s, i)) return i; return s->tail ? -1 : VS_W; }
+static inline long vs_next_unset(const vset *s, long prev) { for (long i = prev + 1; i < VS_W; i++) if (!VS_BIT(s, i)) return i; if (!s->tail) return prev + 1 >= VS_W ? prev + 1 : VS_W; return -1; }
+static inline long vs_last_unset(const vset *s) { if (!s->tail) return -1; for (int i = VS_W - 1; i >= 0; i--) if (!VS_BIT(s, i)) return i; return -1; }
+static inline long vs_weight(const vset *s) { if (s->tail) return -1; long w = 0; for (int i = 0; i < VS_W; i++) w += VS_BIT(s, i); return w; }
+static inline int vs_isequal(const vset *a, const vset *b) { return a->tail == b->tail && !memcmp(a->w, b->w, sizeof a->w); }
+static inline int vs_isincluded(const vset *a, const vset *b) { if (a->tail && !b->tail) return 0; for (int i = 0; i < VS_NW; i++) if (a->w[i] & ~b->w[i]) return 0; return 1; }
+static inline int vs_intersects(const vset *a, const vset *b) { if (a->tail && b->tail) return 1; for (int i = 0; i < VS_NW; i++) if (a->w[i] & b->w[i]) return 1; return 0; }
 static inline int vs_sgn(long v) { return v < 0 ? -1 : v > 0 ? 1 : 0; }
 /* "A bitmap is considered smaller if its least significant bit is smaller. The empty bitmap is
  * considered higher than anything." 0 when same least significant bit (or both empty). */
@@ -60,7 +65,7 @@ static inline int vs_compare_first(const vset *a, const vset *b)
 static inline int vs_compare(const vset *a, const vset *b)
 {
   if (a->tail != b->tail) return a->tail ? 1 : -1;
-  for (int i = VS_W - 1; i >= 0; i--) if (a->bit[i] != b->bit[i]) return a->bit[i] ? 1 : -1;
+  for (int i = VS_W - 1; i >= 0; i--) if (VS_BIT(a, i) != VS_BIT(b, i)) return VS_BIT(a, i) ? 1 : -1;
   return 0;
 }
 /* 0 equal, 1 a included in b, 2 a contains b, 3 intersect without inclusion, 4 disjoint */
@@ -74,13 +79,12 @@ static inline int vs_compare_inclusion(const vset *a, const vset *b)
 }
 static inline unsigned long vs_ith_ulong(const vset *s, unsigned i)
 {
-  unsigned long v = 0;
-  for (unsigned k = 0; k < 64; k++) if (vs_isset(s, i * 64 + k)) v |= 1UL << k;
-  return v;
+  if (i < VS_NW) return (unsigned long)s->w[i];
+  return s->tail ? ~0UL : 0UL;
 }
 /* number of 64-bit words up to the last set bit; -1 if infinite */
 static inline long vs_nr_ulongs(const vset *s) { if (s->tail) return -1; long l = vs_last(s); return l < 0 ? 0 : l / 64 + 1; }
-static inline uint64_t vs_hash(const vset *s) { uint64_t h = 1469598103934665603ULL ^ (uint64_t)s->tail; for (int i = 0; i < VS_W; i++) { h ^= s->bit[i]; h *= 1099511628211ULL; } return h; }
+static inline uint64_t vs_hash(const vset *s) { uint64_t h = 1469598103934665603ULL ^ (uint64_t)s->tail; for (int i = 0; i < VS_NW; i++) { h ^= s->w[i]; h *= 1099511628211ULL; h ^= h >> 31; } return h; }
 
 /* render as list ("0-3,7,2048-") into buf */
 static inline char *vs_str(const vset *s, char *buf, size_t n)
@@ -88,8 +92,8 @@ static inline char *vs_str(const vset *s, char *buf, size_t n)
   size_t p = 0; buf[0] = 0;
   int i = 0;
   while (i < VS_W && p + 32 < n) {
-    if (!s->bit[i]) { i++; continue; }
-    int j = i; while (j + 1 < VS_W && s->bit[j + 1]) j++;
+    if (!VS_BIT(s, i)) { i++; continue; }
+    int j = i; while (j + 1 < VS_W && VS_BIT(s, j + 1)) j++;
     if (j == VS_W - 1 && s->tail) { p += (size_t)snprintf(buf + p, n - p, "%s%d-", p ? "," : "", i); return buf; }
     if (j > i) p += (size_t)snprintf(buf + p, n - p, "%s%d-%d", p ? "," : "", i, j);
     else p += (size_t)snprintf(buf + p, n - p, "%s%d", p ? "," : "", i);
